@@ -290,21 +290,27 @@ func c16Eval(r *core.Run, c *c16Case) {
 		}
 		fb, _ := splitBlocks(fo.Stdout)
 		mb, _ := splitBlocks(mo.Stdout)
+		re, rerr := regexp.Compile(c.Filter)
 		fi, mi := 0, 0
 		for bi, blk := range blocks {
 			key := strings.Join(blk, "\n")
 			inF := fi < len(fb) && strings.Join(fb[fi], "\n") == key
 			inM := mi < len(mb) && strings.Join(mb[mi], "\n") == key
+			if rerr == nil {
+				// which side a block goes to is decided by the expression on its header line
+				if re.MatchString(blk[0] + "\n") {
+					inF = false
+				} else {
+					inM = false
+				}
+			}
 			switch {
-			case inF && inM && len(blocks) > 0:
-				// identical consecutive blocks could match both; consume from one side only
-				fallthrough
 			case inF:
 				fi++
 			case inM:
 				mi++
 			default:
-				report("filter-match-split", fmt.Sprintf("regexp %q: block %d (%q) is in neither the 'filter out' nor the 'match only' output", c.Filter, bi, blk[0]))
+				report("filter-match-split", fmt.Sprintf("regexp %q: block %d (%q) is not in the output it belongs to (matching headers go to 'match only', the others to 'filter out')", c.Filter, bi, blk[0]))
 				return
 			}
 		}
